@@ -8,6 +8,7 @@ recorded (pre, call, post) triple whether it is a step of Container.tla."""
 from __future__ import annotations
 
 import json
+import re
 import sys
 from typing import Any, Dict, List
 
@@ -38,7 +39,7 @@ def generate(universe: str, rep: core.Report):
 def walks(universe: str, n: int, rep: core.Report) -> List[List[int]]:
     """Random walks through the spec's state machine (only in-domain calls), from TLC -simulate."""
     import os
-    cfg = open(os.path.join(tlc.SPEC_DIR, 'MC_C09_%s.cfg' % universe)).read().replace('INVARIANT EmitPath', 'INVARIANT EmitWalk')
+    cfg = re.sub(r'INVARIANT EmitPath\w*', 'INVARIANT EmitWalk', open(os.path.join(tlc.SPEC_DIR, 'MC_C09_%s.cfg' % universe)).read())
     per = max(1, n // core.NCPU)
     res = tlc.require_ok(tlc.run('MC_C09_' + universe, cfg_text=cfg, workers=core.NCPU, simulate='num=%d' % per,
                                  depth=31, seed=core.seed(), timeout=1200), 'C09 walks ' + universe)
